@@ -262,8 +262,8 @@ func c14GenA(r *core.Rng, idx int) c14Case {
 	leaf := func(n string, extra ...*yang.Stmt) *yang.Stmt {
 		return yang.S("leaf", n, append([]*yang.Stmt{yang.S("type", "string")}, extra...)...)
 	}
-	variant := (idx / 3) % 18
-	bad := (idx/3/18)%2 == 0 // (both polarities of every variant: the polarity changes once per cycle over the variants)
+	variant := (idx / 3) % 20
+	bad := (idx/3/20)%2 == 0 // (both polarities of every variant: the polarity changes once per cycle over the variants)
 	c.expect = "accept"
 	if bad {
 		c.expect = "reject"
@@ -297,6 +297,20 @@ func c14GenA(r *core.Rng, idx int) c14Case {
 		}
 		top.Add(yang.S("container", "cf", yang.S("config", "false"), li))
 		c.what = "config true list under config false"
+	case 18: // the key leaf of a config false list is a descendant like any other
+		v := "false"
+		if bad {
+			v = "true"
+		}
+		top.Add(yang.S("list", "cfkl", yang.S("config", "false"), yang.S("key", "k"), leaf("k", yang.S("config", v)), leaf("x")))
+		c.what = "config " + v + " on the key leaf of a config false list"
+	case 19: // ... also when the list inherits config false from above
+		k := leaf("k")
+		if bad {
+			k.Add(yang.S("config", "true"))
+		}
+		top.Add(yang.S("container", "cf", yang.S("config", "false"), yang.S("list", "cfkl", yang.S("key", "k"), k, leaf("x"))))
+		c.what = "config true on the key leaf of a list under a config false container"
 	case 4: // status weaker than parent
 		st := "obsolete"
 		if bad {
